@@ -21,8 +21,33 @@ import ffcx.codegeneration.optimizer as opt
 from . import corpus, export, export_opt, kernels, lean, pipeline, sexp
 
 OPT_MODULE = "FfcxProofs.C17Opt"
-OPT_THEOREMS = []  # filled below (kept next to the proofs' status table)
-OPT_FILES = []
+# status: full = proved as stated in DESIGN §6; partial = see the comment with the full statement in C17Opt.lean
+OPT_THEOREMS = [
+    # every theorem is FULL (proved as stated) unless marked partial
+    "Ffcx.LNodes.exec_depends_on_free_names",      # free-name frame lemma (supersedes the alpha-renaming lemma)
+    "Ffcx.LNodes.commute_sound",                   # commB => s1;s2 ~ s2;s1 up to dead loop indices
+    "Ffcx.LNodes.fuse_sections_sound",
+    "Ffcx.LNodes.loop_fusion_sound",               # classical loop fusion, any trip count
+    "Ffcx.LNodes.fuse_loops_sound",
+    "Ffcx.LNodes.licm_sound",                      # both directions; needs licmCert + licmTripCert
+    "Ffcx.LNodes.licm_refines",                    # licmCert only (empty inner loops allowed): one direction
+    "Ffcx.LNodes.hoisted_factors_safe",
+    "Ffcx.LNodes.licm_product_sound",
+    "Ffcx.LNodes.licm_split",
+    "Ffcx.LNodes.optimize_sound",                  # composition, both directions
+    "Ffcx.LNodes.optimize_preserves_A",
+    "Ffcx.LNodes.check_dependency_sound_partial",  # partial: subscripts check_dependency inspects completely
+    "Ffcx.LNodes.check_dependency_counterexample",
+    "Ffcx.LNodes.check_dependency_counterexample_sum",
+    "Ffcx.LNodes.licm_counterexample",
+    "Ffcx.LNodes.licm_empty_inner_counterexample",
+]
+_LEAN = lean.LEAN
+OPT_FILES = [_LEAN / "FfcxProofs" / "Lemmas" / f for f in (
+    "OptFree.lean", "OptObs.lean", "OptFuseSections.lean", "OptFuseLoops.lean", "OptLicm.lean",
+    "OptLicmModel.lean", "OptLicmSound.lean", "OptLicmReach.lean", "OptCompose.lean")] + [
+    _LEAN / "FfcxModel" / "LNodes" / "Optimizer.lean", _LEAN / "FfcxModel" / "LNodes" / "OptCert.lean",
+    _LEAN / "FfcxModel" / "Driver" / "Opt.lean", _LEAN / "DriverOpt.lean"]
 
 
 # --------------------------------------------------------------------------- driver
@@ -80,8 +105,15 @@ def run_real(code):
     return pre, post, None, None
 
 
+_CAPS = {}
+
+
 def capture(entries, option_sets=None):
-    """every argument list the integral generator passes to optimize(), with the real result"""
+    """every argument list the integral generator passes to optimize(), with the real result
+    (memoised per entry-name tuple: both checks use the same captures)"""
+    memo_key = tuple(e.name for e in entries)
+    if memo_key in _CAPS:
+        return _CAPS[memo_key]
     caps = []
     real = opt.optimize
     cur = [""]
@@ -123,6 +155,7 @@ def capture(entries, option_sets=None):
                     skipped.append(f"{e.name}: {type(ex).__name__}")
     finally:
         ig_mod.optimize = saved
+    _CAPS[memo_key] = (caps, skipped)
     return caps, skipped
 
 
@@ -455,6 +488,9 @@ def check_certificates(chk, d, entries, caps=None):
             nlicm = sum(1 for x in secs if _flag(x, "licm_applies"))
             stats["fuse_loops_sections"] += nfuse
             stats["licm_sections"] += nlicm
+            if sum(p.startswith("(section Coefficient ") for p in c.pre) > 1 or \
+                    sum(p.startswith("(section Jacobian ") for p in c.pre) > 1:
+                stats["fuse_sections_needed"] += 1
             nontriv = (nfuse or nlicm or c.post != c.pre)
             chk.case("optimiser_certificate", c.key if nontriv else None,
                      sample={"kind": "certificate", "input": c.name, "cert": ok, "fuse_loops_sections": nfuse,
@@ -492,6 +528,100 @@ def check_certificates(chk, d, entries, caps=None):
     return stats
 
 
+# --------------------------------------------------------------------------- latent defects (real code)
+def _exec_A(d, stmts, inputs):
+    """exact (Rat) execution of a part list; returns ('ok', [A...]) or ('err', reply)"""
+    r = d.ask("(exec rat (block " + " ".join(stmts) + ") (" + " ".join(inputs) + ") (A))")
+    if r[0] != "ok":
+        return "err", r
+    return "ok", r[1][1:]
+
+
+def latent_defect_inputs():
+    """part lists outside what FFCx's generators emit, on which the REAL optimiser misbehaves"""
+    R, S, I = L.DataType.REAL, L.DataType.SCALAR, L.DataType.INT
+    i, j = L.Symbol("i", I), L.Symbol("j", I)
+    A, T, fw = L.Symbol("A", S), L.Symbol("T", R), L.Symbol("fw", S)
+    base_in = ["(sarr A (2) 0 0)", "(sarr T (5) 1 0 5 0 7)", "(svar fw 1)", "(ivar j 0)"]
+
+    def nest(factors, lo=0, hi=2, jlo=0, jhi=2):
+        body = [L.AssignAdd(A[i], L.Product(factors))]
+        return [L.Section("Tensor Computation", [L.ForRange(i, lo, hi, [L.ForRange(j, jlo, jhi, body)])], [],
+                          [fw], [A], [L.Annotation.licm])]
+
+    cases = [
+        ("licm:check_dependency-misses-binop-subscript",
+         "check_dependency(T[2*j], j) is False (the subscript is a Mul, only Sum/Product args are inspected): "
+         "licm hoists T[2*j] out of the j-loop and the section computes a different A",
+         lambda: nest([T[L.Mul(L.LiteralInt(2), j)], fw]), base_in),
+        ("licm:check_dependency-misses-nested-sum",
+         "check_dependency(T[Sum(2*j, i)], j) is False (j occurs one level deeper than inspected)",
+         lambda: nest([T[L.Sum([L.Mul(L.LiteralInt(2), j), i])], fw]), base_in),
+        ("licm:index-symbol-as-factor",
+         "check_dependency(Symbol j, j) is False: the inner index itself, used as a factor, is hoisted",
+         lambda: nest([j, fw, T[L.Sum([i])]]), base_in),
+        ("licm:outer-loop-begin-nonzero",
+         "temp_k has size end-begin but is subscripted by the outer index: with begin=1 the pre-loop writes temp_0[2] of a 2-element array",
+         lambda: nest([fw, T[L.Sum([i])], T[L.Sum([j])]], lo=1, hi=3),
+         ["(sarr A (4) 0 0 0 0)", "(sarr T (5) 1 0 5 0 7)", "(svar fw 1)", "(ivar j 0)"]),
+        ("licm:empty-inner-loop-evaluates-hoisted-factor",
+         "with an empty inner loop the original never evaluates T[9] (out of bounds); the hoisted pre-loop does",
+         lambda: nest([fw, T[L.LiteralInt(9)]], jlo=0, jhi=0), base_in),
+    ]
+    return cases
+
+
+def check_latent_defects(chk, d):
+    """Run the latent-defect inputs through the REAL optimiser and execute input and output exactly (Rat,
+    Lean `exec`). Recorded in chk.notes['optimizer_latent_defects'] (none of these shapes is emitted by the
+    generators of the current tree: `check_certificates` watches for that)."""
+    out = []
+    with _OptDriver(d) as od:
+        for key, what, build, inputs in latent_defect_inputs():
+            parts = build()
+            pre, post, exc, err = run_real(parts)
+            rec = {"key": key, "what": what, "input": pre, "real_result": exc or "ok"}
+            if pre is not None and post is not None:
+                # the model agrees with the real code on this input
+                rec["model_agrees"] = _norm(model_optimize(od, pre)) == _norm(expected_reply(post, exc))
+                cert = od.ask("(opt_cert " + " ".join(pre) + ")")
+                rec["certificate"] = cert[1]
+                s0, a0 = _exec_A(od, pre, inputs)
+                s1, a1 = _exec_A(od, post, inputs)
+                rec["A_unoptimised"] = a0 if s0 == "ok" else sexp.dumps(_requote(a0))
+                rec["A_optimised"] = a1 if s1 == "ok" else sexp.dumps(_requote(a1))
+                rec["differs"] = (s0, a0) != (s1, a1)
+                rec["optimised"] = post
+            out.append(rec)
+            chk.case("optimiser_latent_defect", key)
+        # crash / silent no-op of fuse_loops
+        ic = L.Symbol("ic", L.DataType.INT)
+        x0, x1 = L.Symbol("x0", L.DataType.REAL), L.Symbol("x1", L.DataType.REAL)
+        two = L.Section("Jacobian", [L.ForRange(ic, 0, 3, [L.AssignAdd(x0, 1.0), L.AssignAdd(x1, 1.0)])],
+                        [L.VariableDecl(x0, 0.0), L.VariableDecl(x1, 0.0)], [], [], [L.Annotation.fuse])
+        pre, post, exc, err = run_real([two])
+        out.append({"key": "fuse_loops:multi-statement-loop-body-raises",
+                    "what": "fuse_loops wraps every collected body (a StatementList) in a new StatementList; as_statement accepts "
+                            "a StatementList only if it has exactly one statement: a loop with two statements raises RuntimeError",
+                    "input": pre, "real_result": exc or "ok",
+                    "model_agrees": _norm(model_optimize(od, pre)) == _norm(expected_reply(post, exc))})
+        both = L.Section("Tensor Computation",
+                         [L.ForRange(L.Symbol("i", L.DataType.INT), 0, 2, [L.ForRange(L.Symbol("j", L.DataType.INT), 0, 2, [
+                             L.AssignAdd(L.Symbol("A", L.DataType.SCALAR)[L.Symbol("i", L.DataType.INT)],
+                                         L.Product([L.Symbol("fw", L.DataType.SCALAR), L.Symbol("s", L.DataType.SCALAR)]))])])],
+                         [], [], [], [L.Annotation.fuse, L.Annotation.licm])
+        pre, post, exc, err = run_real([both])
+        out.append({"key": "optimize:licm-skipped-after-fuse",
+                    "what": "fuse_loops returns a Section without annotations, so `licm in section.annotations` is tested on the "
+                            "new section: a section annotated [fuse, licm] is never hoisted (performance only; and the nested loop "
+                            "body is wrapped in a StatementList)",
+                    "input": pre, "real_result": exc or "ok",
+                    "hoisted": bool(post) and "temp_0" in " ".join(post),
+                    "model_agrees": _norm(model_optimize(od, pre)) == _norm(expected_reply(post, exc))})
+    chk.notes["optimizer_latent_defects"] = out
+    return out
+
+
 def main(argv=None):
     import argparse
     import time
@@ -510,7 +640,9 @@ def main(argv=None):
         chk.lean(OPT_MODULE, OPT_THEOREMS, extra_files=OPT_FILES)
     check_optimizer(chk, None, ents)
     check_certificates(chk, None, ents)
-    print("notes:", {k: v for k, v in chk.notes.items()})
+    for rec in check_latent_defects(chk, None):
+        print("LATENT:", {k: (v if k not in ("input", "optimised") else "…") for k, v in rec.items()})
+    print("notes:", {k: v for k, v in chk.notes.items() if k != "optimizer_latent_defects"})
     print(f"evaluations={chk.evaluations} nontrivial={len(chk.nontrivial)} programs={chk.programs} "
           f"obligations={sum(1 for o in chk.obligations if o[2])}/{len(chk.obligations)} "
           f"disagreements={chk.disagreements_checked} violations={len(chk.violations)} broken={len(chk.broken)} "
